@@ -237,6 +237,18 @@ impl<'a> FnTr<'a> {
             Type::Reference(r) => self.ty(&r.elem),
             // builder V: `impl RngCore` in argument position is the unit's abstract generator type `RNG`
             Type::ImplTrait(it) if self.reg.structs.contains_key("RNG") && it.bounds.iter().any(|b| matches!(b, TypeParamBound::Trait(tb) if tb.path.segments.last().map(|s| s.ident == "RngCore").unwrap_or(false))) => Ok(Ty::Named("RNG".into())),
+            // builder A: `dyn Trait` is the record of that name the unit declares (`ExternStructRaw`)
+            Type::TraitObject(to) => {
+                for b in &to.bounds {
+                    if let TypeParamBound::Trait(tb) = b {
+                        let name = tb.path.segments.last().map(|s| s.ident.to_string()).unwrap_or_default();
+                        if self.reg.structs.contains_key(&name) {
+                            return Ok(Ty::Named(name));
+                        }
+                    }
+                }
+                Err(format!("unsupported trait object {}", quote::quote!(#t)))
+            }
             Type::Paren(p) => self.ty(&p.elem),
             Type::Tuple(t) => {
                 if t.elems.is_empty() {
@@ -1435,8 +1447,43 @@ impl<'a> FnTr<'a> {
     fn emit_call(&mut self, sig: &FnSig, actuals: &[&Expr], env: &mut Env, st: &mut Stmts) -> Res<(String, Ty)> {
         let mut args = vec![];
         let mut writebacks: Vec<(String, Vec<String>)> = vec![];
+        let mut slice_wb: HashMap<usize, (String, String, String)> = HashMap::new();
         for (a, (pn, pt)) in actuals.iter().zip(sig.params.iter()) {
             if sig.muts.contains(pn) {
+                // builder A: `&mut x[a..b]` lends a sub-slice: slice out (a panic if the range is invalid), call, copy back
+                let mut inner: &Expr = a;
+                loop {
+                    match inner {
+                        Expr::Reference(r) => inner = &r.expr,
+                        Expr::Paren(p) => inner = &p.expr,
+                        _ => break,
+                    }
+                }
+                if let Expr::Index(ix) = inner {
+                    if let Expr::Range(r) = &*ix.index {
+                        if !matches!(r.limits, RangeLimits::HalfOpen(_)) {
+                            return Err("`&mut x[a..=b]` argument not supported".into());
+                        }
+                        let (root, fields, _) = self.place(&ix.expr, env)?;
+                        let (d, td) = self.ex(&ix.expr, env, st, None)?;
+                        if !matches!(td, Ty::Arr(_)) {
+                            return Err("`&mut x[a..b]` argument: not an array".into());
+                        }
+                        let lo = match &r.start {
+                            Some(e) => self.ex(e, env, st, Some(Ty::Int("usize")))?.0,
+                            None => "0".to_string(),
+                        };
+                        let hi = match &r.end {
+                            Some(e) => self.ex(e, env, st, Some(Ty::Int("usize")))?.0,
+                            None => format!("(Int.ofNat {}.length)", paren(&d)),
+                        };
+                        let t = self.act(st, format!("Rt.slice {} {} {}", paren(&d), paren(&lo), paren(&hi)));
+                        args.push(paren(&t));
+                        writebacks.push((root, fields));
+                        slice_wb.insert(writebacks.len() - 1, (d, lo, hi));
+                        continue;
+                    }
+                }
                 let (root, fields, _) = self.place(a, env)?;
                 writebacks.push((root, fields));
             }
@@ -1456,8 +1503,14 @@ impl<'a> FnTr<'a> {
         } else {
             "()".to_string()
         };
-        for (root, fields) in &writebacks {
-            if fields.is_empty() {
+        for (k, (root, fields)) in writebacks.iter().enumerate() {
+            if let Some((d, lo, hi)) = slice_wb.get(&k) {
+                let n = self.fresh();
+                let m = self.fresh();
+                post.push((m.clone(), Rhs::Act(format!("Rt.copyFromSlice {} {} {} {}", paren(d), paren(lo), paren(hi), n))));
+                post.push((lean_ident(root), Rhs::Pure(update_term(&lean_ident(root), fields, &m))));
+                names.push(n);
+            } else if fields.is_empty() {
                 names.push(lean_ident(root));
             } else {
                 let n = self.fresh();
@@ -1798,7 +1851,17 @@ impl<'a> FnTr<'a> {
         };
         self.ret = ret.clone();
         self.fn_prefix = lean_name.to_string();
-        let mut seq = self.block_tail(&body.stmts, &mut env)?;
+        // builder A: a function without `&mut` parameters whose body lends a local (`f(&mut x)`, `&mut x[..n]`): statement
+        // mode for the body (calls for their effect, loops), nothing added to the result
+        let lends = self.muts.is_empty() && quote::quote!(#body).to_string().contains("& mut");
+        if lends {
+            self.muts = vec![String::new()];
+        }
+        let seq_r = self.block_tail(&body.stmts, &mut env);
+        if lends {
+            self.muts = vec![];
+        }
+        let mut seq = seq_r?;
         // builder L (state passing): every exit returns the value together with the `&mut` parameters
         let mut_tys: Vec<Ty> = self.muts.iter().map(|m| params.iter().find(|(n, _)| n == m).unwrap().1.clone()).collect();
         let rust_ret = ret.clone();
@@ -2848,7 +2911,8 @@ impl<'a> FnTr<'a> {
                     (Some(lo), Some(hi)) => format!("Rt.slice {} {} {}", paren(&a), paren(&lo), paren(&hi)),
                     (None, Some(hi)) => format!("Rt.slice {} 0 {}", paren(&a), paren(&hi)),
                     (Some(lo), None) => format!("Rt.sliceFrom {} {}", paren(&a), paren(&lo)),
-                    (None, None) => unreachable!(),
+                    // builder A: `x[..]` is the whole of `x`
+                    (None, None) => return Ok((a, Ty::Arr(el))),
                 };
                 Ok((self.act(st, term), Ty::Arr(el)))
             }
@@ -3089,6 +3153,11 @@ impl<'a> FnTr<'a> {
                 // `Self::bandwidth_value(..)`) is translated on demand like a helper method
                 None if self.reg.io.borrow().mode && (self.reg.structs.contains_key(&tyn) || self.reg.enums.contains_key(&tyn)) => {
                     Some(self.method_on_demand(&tyn, &segs[segs.len() - 1])?)
+                }
+                // builder A: a module-qualified free function the unit translates (`securityhelpers::calculate_mic`):
+                // the qualifier is a module (lower case, no type of that name)
+                None if tyn.chars().next().map(|ch| ch.is_lowercase()).unwrap_or(false) && !self.reg.structs.contains_key(&tyn) && !self.reg.enums.contains_key(&tyn) => {
+                    self.reg.fns.get(&segs[segs.len() - 1]).cloned()
                 }
                 None => None,
             }
